@@ -109,7 +109,7 @@ PROPS = {
                    "with an independent lexer+parser pair carrying the harness's own error listeners; a catalogue of constructed "
                    "valid/invalid scripts pins the expectation independently of the grammar code. Search, not proof.",
         level_note="The validity oracle shares the generated ANTLR grammar with the code under test (the property is stated relative to that grammar); "
-                   "the catalogue and constructed sub-checks (generated scripts in random layouts must load; the same with one statement line re-indented by a tab/blank mixture must be refused) are the grammar-independent part; the sequence sub-check loads several inputs in one process. Running the loaded script is C06's business.",
+                   "the catalogue and constructed sub-checks (generated scripts in random layouts must load; the same with one edit that is invalid under any reading - a line re-indented by a tab/blank mixture, a dropped or extra endif, an unclosed if, a stray else, a dropped >>, a dropped closing brace, a dropped node end - must be refused) are the grammar-independent part; the sequence sub-check loads several inputs in one process. Running the loaded script is C06's business.",
         rule="inputs: arbitrary bytes/strings, fragment soups, random-indentation bodies, 1-3 mutations of fixtures, fixtures split at node "
              "boundaries or random byte offsets over 1-4 readers, seeds from five classes; non-trivial = input with a syntax error that still "
              "contains a '---' body marker, or a valid mutated/split script; distinct = distinct serialised cases.",
